@@ -245,8 +245,21 @@ func projectEnum(e *descriptorpb.EnumDescriptorProto) any {
 			return o
 		}),
 	}
-	if len(e.ReservedRange) > 0 || len(e.ReservedName) > 0 {
-		out["unexpected:reserved"] = fmt.Sprint(e.ReservedRange, e.ReservedName)
+	if len(e.ReservedRange) > 0 {
+		// an enum's reserved range is inclusive at both ends in the descriptor
+		out["reserved_range"] = list(e.ReservedRange, func(r *descriptorpb.EnumDescriptorProto_EnumReservedRange) any {
+			o := map[string]any{"start": "(unset)", "end": "(unset)"}
+			if r.Start != nil {
+				o["start"] = float64(r.GetStart())
+			}
+			if r.End != nil {
+				o["end"] = float64(r.GetEnd())
+			}
+			return o
+		})
+	}
+	if len(e.ReservedName) > 0 {
+		out["reserved_name"] = strs(e.ReservedName)
 	}
 	if e.Options != nil {
 		projectOptions(out, e.Options, map[protowire.Number]string{2: "allow_alias"})
